@@ -166,6 +166,13 @@ def run(ctx):
             if not ok:
                 viol("input", {"exec": cmd, "S": S}, "0 without -S; %s with -S" % (code if code is not None else "non-zero"), "exit %d" % rc,
                      "pdsh -R exec %s sh -c %r exited %d (stderr %r)" % ("-S" if S else "", cmd, rc, e[-120:]))
+    # a target written user@host (no transport named) is a target like any other: its command's status counts
+    for flags, want in ((["-S"], 3), (["-k"], None), ([], 0)):
+        rc, o, e = real.run(["-R", "exec"] + flags + ["-w", "h1,root@h2", "sh", "-c", "case %h in h2) exit 3;; esac"])
+        stats["exec_runs"] += 1
+        if not (rc == want if want is not None else rc not in (0, -999)):
+            viol("input", {"exec": "case %h in h2) exit 3;; esac", "flags": flags, "targets": "h1,root@h2"}, "%s" % (want if want is not None else "non-zero"), "exit %d" % rc,
+                 "pdsh -R exec %s -w h1,root@h2: the command on h2 exits 3, pdsh exited %d (stderr %r)" % (" ".join(flags), rc, e[-160:]))
     # the same when pdsh is started by a parent that ignores SIGCHLD (the disposition is inherited across exec)
     import signal as _signal, subprocess as _sp
     for cmd, code in (("exit 3", 3), ("kill -9 $$", None), ("exit 0", 0)):
